@@ -32,6 +32,23 @@ theorem gen_evaluate_row (L P : Nat) (fv : Nat) (c s : α) (a b d g h : Int → 
   intro ell a' hs1 hl h1 h2
   exact (hat_gen L P c s a b d g h ht F J ell a' (-sw) (by omega) h1 h2 (by omega) (by omega) (by omega)).symm
 
+/-- **… for any number of rows of mode weights** (the leading axes of a `Modes` object, flattened by `Wigner.evaluate`): row `r`
+    of the output is the per-row value — the vectorised kernel call is the per-row call, for every arithmetic (hence bit for bit). -/
+theorem gen_evaluate_rows (L P : Nat) (fv : Nat) (c s : α) (a b d g h : Int → α) (ht : TabOK L a b d g h)
+    (farrs : Nat → Array (Cx α)) (mw : Int → Cx α) (za zg : Cx α) (sw : Int) (ellMax : Nat) (N : Nat) (ncols : Int)
+    (cpowi : Cx α → Int → Cx α) (F : φ) (J : Loc → α) (hsP : sw.natAbs ≤ P) (hM : ellMax ≤ L)
+    (hrows : ∀ (r : Nat) (j : Int), r < N → 0 ≤ j → mw ((r : Int) * ncols + j) = Model.cget (farrs r) j.toNat)
+    (r : Nat) (hr : r < N) :
+    let stH := Gen.Wigner_H (α := α) g h (L : Int) (P : Int) a b d ⟨c, s⟩ idW idV idX F
+    ∃ prev : Cx α, frdC (α := α) (Gen.u_evaluate_Horner (α := α) mw fv 0 (L : Int) (P : Int) 0 (ellMax : Int) sw
+        (fun i => frd (α := α) stH idW i) za zg (N : Int) ncols cpowi stH) fv (r : Int)
+      = Model.evaluateHornerK (α := α) (Model.runH (α := α) L P c s (⟨F, J⟩ : Hyb L P φ α)) (farrs r) za (cpowi (Cx.conj zg) sw) sw ellMax prev := by
+  intro stH
+  refine evalH_rows (Model.runH (α := α) L P c s (⟨F, J⟩ : Hyb L P φ α)) farrs mw fv 0 L P ellMax sw _ za zg N ncols cpowi stH
+    (by omega) hrows ?_ r hr
+  intro ell a' hs1 hl h1 h2
+  exact (hat_gen L P c s a b d g h ht F J ell a' (-sw) (by omega) h1 h2 (by omega) (by omega) (by omega)).symm
+
 /-- non-vacuity: spin −2 modes with `ell_max = 3` on the calculator `(L, P) = (4, 2)`, IEEE doubles, executable memory -/
 example (c s : Float) (farr : Array (Cx Float)) (za zg : Cx Float) (cpowi : Cx Float → Int → Cx Float) (F : HFMem Float) :
     let stH := Gen.Wigner_H (α := Float) (tabOfRange Scalar.half (Spec.nmRange 5) Gen.tab_g)
